@@ -237,6 +237,8 @@ def build_record(spec: Dict[str, Any]) -> Any:
 
     length = spec["length"]
     rec = h.DummyRecord(seq=spec["seq"], circular=spec["circular"], record_id=spec["id"])
+    if spec.get("name") is not None:
+        rec.name = spec["name"]
     if spec.get("description"):
         rec.description = spec["description"]
     for key, val in spec.get("annotations", {}).items():
@@ -466,7 +468,8 @@ def run_prep(case: Dict[str, Any]) -> Dict[str, Any]:
     def go(cpus: int) -> Any:
         destroy_config()
         options = update_config({
-            "cpus": cpus, "reuse_results": False, "skip_sanitisation": False, "allow_long_headers": False,
+            "cpus": cpus, "reuse_results": False, "skip_sanitisation": False,
+            "allow_long_headers": bool(case.get("allow_long_headers", False)),
             "limit_to_record": "", "minlength": case.get("minlength", 10), "limit": -1, "taxon": "bacteria",
             "genefinding_tool": "fake", "genefinding_gff3": "", "triggered_limit": False})
         try:
@@ -482,8 +485,13 @@ def run_prep(case: Dict[str, Any]) -> Dict[str, Any]:
     if "ret" in reference and "ret" in obs:
         out["problems"] = _compare(obs["ret"], reference["ret"])
         out["ids"] = [r.id for r in obs["ret"]]
+        out["recs"] = [[r.id, r.name, r.original_id] for r in obs["ret"]]
+        out["recs_one_cpu"] = [[r.id, r.name, r.original_id] for r in reference["ret"]]
         out["skips"] = [r.skip for r in obs["ret"]]
         out["cds"] = [len(r.get_cds_features()) for r in obs["ret"]]
+        if out["recs"] != out["recs_one_cpu"]:
+            out["problems"].insert(0, f"identifiers with {case['cpus']} cpus {[r[0] for r in out['recs']]} vs "
+                                      f"in-process {[r[0] for r in out['recs_one_cpu']]}")
     else:
         ref_obs = {k: v for k, v in reference.items() if k != "ret"} or {"ok": True}
         got_obs = {k: v for k, v in obs.items() if k != "ret"} or {"ok": True}
